@@ -13,7 +13,8 @@ from simkit.chaosnet import FaultDriver, build_mesh
 from simkit.rng import seed_globals
 from simkit.world import InvalidScenario, Monitor, result, run_sim
 
-KLASSES = ("ml-live", "ml-single", "ml-single-faulty", "ml-multi-fifo", "ml-multi")
+KLASSES = ("ml-live", "ml-live-jitter", "ml-single", "ml-single-faulty", "ml-multi-fifo", "ml-multi")
+LIVE = ("ml-live", "ml-live-jitter")
 FIFO = ("ml-live", "ml-single-faulty", "ml-multi-fifo")
 PFX = {"multi": "MultiPaxos", "flex": "FlexPaxos"}
 CLSNAME = {"multi": "MultiPaxosNode", "flex": "FlexiblePaxosNode"}
@@ -38,22 +39,29 @@ class RecordingStateMachine:
 
 def gen(rng, fam):
     r = rng.random()
-    klass = ("ml-live" if r < 0.15 else "ml-single" if r < 0.33 else "ml-single-faulty" if r < 0.48
-             else "ml-multi-fifo" if r < 0.74 else "ml-multi")
-    n = rng.choice([3, 3, 4, 5, 5])
+    klass = ("ml-live" if r < 0.10 else "ml-live-jitter" if r < 0.22 else "ml-single" if r < 0.37
+             else "ml-single-faulty" if r < 0.50 else "ml-multi-fifo" if r < 0.75 else "ml-multi")
+    n = rng.choice([3, 3, 4, 5, 5]) if klass != "ml-live-jitter" else rng.choice([3, 3, 3, 4, 5])
     scale = rng.choice([0.005, 0.01, 0.02])
     fifo = klass in FIFO
-    prof = gen_net(rng, scale, fifo=fifo)
-    per = gen_per_link(rng, n, prof, fifo=fifo)
+    prof = gen_net(rng, scale, fifo=fifo, bounded=(klass == "ml-live-jitter"))
+    per = gen_per_link(rng, n, prof, fifo=fifo) if klass != "ml-live-jitter" else {}
+    lead0 = rng.randrange(n)
+    if klass == "ml-live-jitter" and rng.random() < 0.6:
+        # variant "acks only": leader -> follower links are FIFO (constant), follower -> leader links jitter, so Accepted
+        # responses overtake each other while Accepts arrive in order (keeps the recorded gap-append finding out)
+        prof = {"base": round(scale * rng.choice([0.2, 1.0]), 6), "jitter": 0.0}
+        jit = round(scale * rng.choice([2.0, 5.0, 10.0]), 6)
+        per = {f"n{f}->n{lead0}": {"jitter": jit} for f in range(n) if f != lead0}
     dmax = max_delay(prof, per)
-    hb = rng.choice([0.2, 0.5, 1.0, 5.0]) if klass != "ml-live" else rng.choice([0.2, 0.5, 1.0])
+    hb = rng.choice([0.2, 0.5, 1.0, 5.0]) if klass not in LIVE else rng.choice([0.2, 0.5, 1.0])
     if fam == "flex":
         pairs = [(a, b) for a in range(1, n + 1) for b in range(1, n + 1) if a + b > n]
         q1, q2 = rng.choice(pairs)
     else:
         q1 = q2 = n // 2 + 1
     t0 = round(rng.uniform(0.02, 0.1), 5)
-    starts = [{"t": t0, "node": rng.randrange(n)}]
+    starts = [{"t": t0, "node": lead0}]
     if klass in ("ml-multi-fifo", "ml-multi"):
         for _ in range(rng.choice([1, 1, 2, 3])):
             gap = rng.choice([rng.uniform(0, 3 * scale), rng.uniform(0, 0.5), rng.uniform(0, 1.5)])
@@ -61,10 +69,15 @@ def gen(rng, fam):
     starts.sort(key=lambda s: (s["t"], s["node"]))
     k = rng.randint(2, 12)
     submits = []
-    if klass == "ml-live":
+    if klass in LIVE:
         base = t0 + 4 * dmax + 0.001
         for i in range(k):
-            submits.append({"t": round(base + rng.uniform(0, 2.5 * hb), 5), "mode": "leader", "node": 0, "cmd": f"c{i}"})
+            # back-to-back bursts (several slots in flight at once) mixed with spread-out commands
+            if submits and rng.random() < 0.5:
+                t = submits[-1]["t"] + rng.choice([0.0, rng.uniform(0, 0.5 * scale), rng.uniform(0, 2 * scale)])
+            else:
+                t = base + rng.uniform(0, 2.5 * hb)
+            submits.append({"t": round(t, 5), "mode": "leader", "node": 0, "cmd": f"c{i}"})
         submits.sort(key=lambda s: s["t"])
         horizon = round(max(s["t"] for s in submits) + 2 * hb + 12 * dmax + 0.01, 5)
     else:
@@ -82,7 +95,9 @@ def gen(rng, fam):
     return {"fam": fam, "klass": klass, "seed": rng.getrandbits(32), "net_seed": rng.getrandbits(32), "n": n,
             "q1": q1, "q2": q2, "hb": hb, "profile": prof, "per_link": per, "faults": faults, "starts": starts,
             "submits": submits, "horizon": horizon,
-            "defer_fine": klass != "ml-live" and rng.random() < 0.3}
+            # ml-live-jitter judges liveness only: reordering inside the delay bound is not a fault, and the recorded
+            # Multi/Flexible safety findings that reordering triggers must not end the run before liveness is judged
+            "defer_fine": klass == "ml-live-jitter" or (klass != "ml-live" and rng.random() < 0.3)}
 
 
 def _validate(sc):
@@ -115,15 +130,19 @@ def _validate(sc):
             raise InvalidScenario("commands must be unique")
         cmds.add(s["cmd"])
     k = sc["klass"]
-    if k in ("ml-live", "ml-single", "ml-single-faulty") and len({s["node"] for s in sc["starts"]}) != 1:
+    if k in ("ml-live", "ml-live-jitter", "ml-single", "ml-single-faulty") and len({s["node"] for s in sc["starts"]}) != 1:
         raise InvalidScenario("single-starter class")
-    if k in ("ml-live", "ml-single", "ml-multi-fifo") and sc.get("faults"):
+    if k in ("ml-live", "ml-live-jitter", "ml-single", "ml-multi-fifo") and sc.get("faults"):
         raise InvalidScenario("fault-free class")
     if k in FIFO:
         pr = [sc["profile"]] + list((sc.get("per_link") or {}).values())
         if any(p.get("jitter", 0) or p.get("straggler_p", 0) for p in pr):
             raise InvalidScenario("FIFO class needs constant per-link latency")
-    if k == "ml-live":
+    if k == "ml-live-jitter":
+        pr = [sc["profile"]] + list((sc.get("per_link") or {}).values())
+        if any(p.get("straggler_p", 0) for p in pr) or not sc.get("defer_fine"):
+            raise InvalidScenario("ml-live-jitter: bounded delays, liveness-only (deferred) mode")
+    if k in LIVE:
         if any(s["mode"] != "leader" for s in sc.get("submits", [])) or not sc.get("submits") or len(sc["starts"]) != 1:
             raise InvalidScenario("liveness class: one start, commands go to the leader")
         dmax = max_delay(sc["profile"], sc.get("per_link"))
@@ -172,7 +191,11 @@ def run(sc):
                         "ml_commit_via_heartbeat", "ml_pending_assigned_on_takeover", "ml_future_resolved",
                         "ml_leader_deposed_by_own_heartbeat", "ml_queued_at_non_leader", "ml_nack",
                         "ml_leader_uses_foreign_ballot", "ml_leader_kept_leading_after_own_tick",
-                        "ml_command_after_first_tick_applied_everywhere", "ml_promise_reported_entries"], 0)
+                        "ml_command_after_first_tick_applied_everywhere", "ml_promise_reported_entries",
+                        "ml_live_two_slots_in_flight", "ml_live_acks_out_of_slot_order"], 0)
+    in_flight_max = [0]
+    acks_ooo = [False]
+    last_ack_slot = {}
     ticked = set()               # leaders that survived at least one own heartbeat tick
     late_cmds = []               # commands submitted to such a leader
     leaders_ever = []
@@ -327,6 +350,10 @@ def run(sc):
                     if cur_e is None or e["term"] > cur_e[0]:
                         tab[e["index"]] = (e["term"], e["command"])
         if et == P + "Accepted":
+            if md.get("slot", 0) < last_ack_slot.get(x.name, 0) and md.get("slot", 0) > log.commit_index:
+                acks_ooo[0] = True
+            last_ack_slot[x.name] = max(last_ack_slot.get(x.name, 0), md.get("slot", 0))
+            in_flight_max[0] = max(in_flight_max[0], log.last_index - log.commit_index)
             ack_msgs[(x.name, md.get("slot"))] = ack_msgs.get((x.name, md.get("slot")), 0) + 1
         # --- acceptor answered an Accept
         if et == P + "Accept":
@@ -456,7 +483,7 @@ def run(sc):
         sig, msg = payload.sig, payload.msg
         if status == "exception":
             sig = f"C12/{sig}"
-    elif status == "ok" and klass == "ml-live":
+    elif status == "ok" and klass in LIVE:
         dmax = max_delay(sc["profile"], sc.get("per_link"))
         tag = "/leader-deposed-by-own-heartbeat" if pr["ml_leader_deposed_by_own_heartbeat"] else ""
         bad = None
@@ -471,10 +498,14 @@ def run(sc):
             if bad:
                 break
         if bad:
+            if J.first_fine:  # liveness-only class: name the recorded safety cause that preceded the liveness failure
+                tag += f"/after:{J.first_fine[0]}:{J.first_fine[1]}"
             sig = f"C12/liveness/{CLS}/{bad[0]}{tag}"
-            msg = (f"fault-free, FIFO links, delays <= {dmax:.4f}s, heartbeat {sc['hb']}s, horizon {sc['horizon']}s: {bad[1]}; "
+            msg = (f"fault-free, {'FIFO links' if klass == 'ml-live' else 'bounded jitter (reordering)'}, delays <= {dmax:.4f}s, heartbeat {sc['hb']}s, horizon {sc['horizon']}s: {bad[1]}; "
                    f"commit indexes {[x.log.commit_index for x in nodes]}, leaders now {[x.name for x in nodes if x.is_leader]}, "
                    f"commands skipped because no node was leader: {skipped['no_leader']}")
+    pr["ml_live_two_slots_in_flight"] = int(klass in LIVE and in_flight_max[0] >= 2)
+    pr["ml_live_acks_out_of_slot_order"] = int(klass in LIVE and acks_ooo[0])
     pr["ml_command_after_first_tick_applied_everywhere"] = int(any(all(c in sm.applied for sm in sms) for c in late_cmds))
     counters = {f"probe.{k}": v for k, v in pr.items()}
     counters["probe.flex_q2_below_majority"] = int(fam == "flex" and q2 < n // 2 + 1)
